@@ -100,6 +100,7 @@ struct SimSourceManager final : SourceManager {
 class OssSim final : public Engine {
   SimSourceManager* mgr{ nullptr };
   std::unique_ptr<oss::OSSchema> S;
+  std::unique_ptr<oss::OSSchema> other;   // another document of the same kind open in the same environment (it shares the source manager's observer list)
   std::string savedOss; bool hasSavedOss{ false };
   SimTextProc* proc{ nullptr };
   std::string focus;
@@ -242,19 +243,21 @@ public:
     c["p_fault"] = r.Pct(35) ? 0 : r.Range(2, 15);
     c["w_operator"] = r.Range(3, 8); c["w_exec"] = r.Range(2, 8); c["w_editor"] = r.Range(2, 8); c["w_env"] = r.Range(1, 6);
     c["domain"] = r.Pct(30);
-    c["storm_after"] = r.Pct(25) ? r.Range(12, 30) : 0;
+    c["storm_after"] = r.Pct(25) ? r.Range(12, 30) : 0; c["other_first"] = r.Pct(20);
     return c;
   }
   void Begin(Ctx& c) override {
     focus = c.focus; proc = InstallTextProc(); proc->limit = 24;
     auto m = std::make_unique<SimSourceManager>(); mgr = m.get(); faultCounter.clear(); mgr->faultCounter = &faultCounter;
     Environment::Instance().SetSourceManager(std::move(m));
+    other.reset();
+    if (c.C("other_first", 0)) { other = std::make_unique<oss::OSSchema>(); other->InsertBase(); }   // an older document of the same kind is already open
     S = std::make_unique<oss::OSSchema>();
     if (c.C("domain")) S->Src().ossDomain = u8"dom/";
     hasSavedOss = false; savedOss.clear(); execWitness.clear(); basis.clear(); newSrcCounter = 0; parentModel.clear(); restartedRecently = 0;
   }
   void Destroy() override {
-    S.reset();
+    S.reset(); other.reset();
     Environment::Instance().SetSourceManager(std::make_unique<SourceManager>()); mgr = nullptr;
     RemoveTextProc(); proc = nullptr;
   }
